@@ -262,6 +262,22 @@ def vendor_case(task):
         text = write_molden(wf, fc, ca, cb, unit, mo_digits=mo_digits, interleave=interleave) if fmt == "molden" else write_molekel(wf, fc, ca, cb)
         path = os.path.join(tmp, "v.molden" if fmt == "molden" else "v.mkl")
         open(path, "w").write(text)
+        if mo_digits:
+            # what the printed digits leave of the normalisation: when the rounded orbitals (the vendor's factors undone) miss unit
+            # norm by more than half the threshold asked for, refusing the file is as right as loading it -- not a case
+            rowf_ = np.concatenate([mo_factors(vendor, (int(sh.angmoms[0]), str(sh.kinds[0]))) * sign_pattern(vendor, (int(sh.angmoms[0]), str(sh.kinds[0])))
+                                    for sh in wf["obasis"].shells])
+            S0 = ref_overlap(wf["obasis"], wf["xyz"])
+            worst = 0.0
+            for C in (ca, cb):
+                if C is None:
+                    continue
+                Cr = np.array([[float(f"{x:.{mo_digits}f}") for x in row] for row in C]) / rowf_[:, None]
+                worst = max(worst, float(np.abs(np.einsum("ij,ik,kj->j", Cr, S0, Cr) - 1.0).max()))
+            ev["rounding_norm_error"] = worst
+            if worst > 0.5 * thr:
+                ev["out"] = "skip"
+                return ev
         with warnings.catch_warnings(record=True) as wl:
             warnings.simplefilter("always")
             try:
@@ -358,7 +374,14 @@ def plan(run, rng):
             sub = rng.sample([t for t in allowed if t != "hp"], 2)
             if any(a in sub and b in sub for a, b in (("dc", "dp"), ("fc", "fp"), ("gc", "gp"))):
                 sub = sub[:1]
-            tasks.append((vendor, sub, "molden", "AU", rng.random() < 0.5, 1e-6, rng.randint(0, 10**9), "slight"))
+            tasks.append((vendor, sub, rng.choice(["molden", "molden", "molekel"]), "AU", rng.random() < 0.5, 1e-6, rng.randint(0, 10**9), "slight"))
+    # every mixture of pure and Cartesian d / f / g shells in one file: the [5D] / [5D10F] / [7F] / [9G] tags of Molden (and the
+    # function counts of Molekel) must be read for what they say about each angular momentum separately
+    for kinds in itertools.product("cp", repeat=3):
+        full = ["d" + kinds[0], "f" + kinds[1], "g" + kinds[2]]
+        for sub in (full, full[:2]) if run.thorough() or kinds[0] != kinds[1] else (full[:2],):
+            for fmt in ("molden", "molekel"):
+                tasks.append(("standard", sub, fmt, "AU", False, 1e-4, rng.randint(0, 10**9), False))
     for i in range(run.pick(6, 200)):
         vendor = rng.choice(["standard", "orca", "turbomole"])
         sub = rng.sample(ALLOWED[vendor], 2)
@@ -379,6 +402,8 @@ def check(run: Run):
     run.add_model(st)
     tasks = plan(run, rng)
     events = pmap(vendor_case, tasks, chunksize=1)
+    run.notes["low_precision_files_beyond_their_threshold"] = sum(1 for e in events if e["out"] == "skip")
+    events = [e for e in events if e["out"] != "skip"]
     reached = validate_traces(run, "Trace_Vendors", [[e] for e in events], chunk=2000)
     stats = {}
     for e, r in zip(events, reached):
